@@ -15,6 +15,9 @@ CONSTANTS
   MaxNonce,   \* nonces 0..MaxNonce
   MaxBal,     \* balances 0..MaxBal
   MaxCode,    \* code classes 0..MaxCode (0 = no code)
+  Del,        \* deleteEmptyObjects, fixed per chain: AnnChain passes TRUE everywhere (state_processor.go,
+              \* chain/app/evm), genesis FALSE.  Mixing the two on one StateDB is outside the model (in both
+              \* code bases Finalise(true) followed by Commit(false) re-inserts an account deleted as empty).
   MaxJournal, \* bound on journal length            (state constraint)
   MaxSnap,    \* bound on snapshot nesting           (state constraint)
   MaxIds      \* bound on revision ids handed out    (state constraint)
@@ -28,16 +31,19 @@ NoSlot == "-"
 
 VARIABLES
   acc,     \* [Addrs -> Rec]  what the getters answer now (live objects over the account trie)
+  trie,    \* [Addrs -> Rec]  content of the in-memory account trie (changes only in Finalise / Commit)
   journal, \* Seq of undo entries [t, a, s, pv, pb, pr]
   revs,    \* Seq of [id, j]   validRevisions
   nextId,  \* nextRevisionId
   pend,    \* SUBSET Addrs     stateObjectsDirty: finalised into the trie, not yet committed
   disk,    \* [Addrs -> Rec]   content under the last committed root
   saved,   \* ghost: Seq of acc, saved[i] = acc when revs[i] was taken
+  stale,   \* ghost: addresses whose live object was NOT written by the last Finalise/Commit although it
+           \* differs from the trie (see ResetQuirk)
   res      \* output only
 
-vars == <<acc, journal, revs, nextId, pend, disk, saved, res>>
-view == <<acc, journal, revs, nextId, pend, disk, saved>>
+vars == <<acc, trie, journal, revs, nextId, pend, disk, saved, stale, res>>
+view == <<acc, trie, journal, revs, nextId, pend, disk, saved, stale>>
 
 Entry(t, a) == [t |-> t, a |-> a, s |-> NoSlot, pv |-> 0, pb |-> FALSE, pr |-> NoAcct]
 
@@ -48,6 +54,7 @@ Persist(A) == [a \in Addrs |-> PersistRec(A[a])]
 
 Init ==
   /\ acc = [a \in Addrs |-> NoAcct] /\ journal = <<>> /\ revs = <<>> /\ nextId = 0
+  /\ trie = [a \in Addrs |-> NoAcct] /\ stale = {}
   /\ pend = {} /\ disk = [a \in Addrs |-> NoAcct] /\ saved = <<>>
   /\ res = [op |-> "init"]
 
@@ -76,7 +83,7 @@ Ensure(a) == IF acc[a].ex THEN [A |-> acc, J |-> <<>>]
 Upd(E, entries, A2) ==
   /\ acc' = A2
   /\ journal' = journal \o E.J \o entries
-  /\ UNCHANGED <<revs, nextId, pend, disk, saved>>
+  /\ UNCHANGED <<trie, revs, nextId, pend, disk, saved, stale>>
 
 SetNonce(a, n) ==
   /\ res' = [op |-> "SetNonce"]
@@ -146,7 +153,7 @@ Snapshot(id) ==
   /\ revs' = Append(revs, [id |-> id, j |-> Len(journal)])
   /\ saved' = Append(saved, acc)
   /\ res' = [op |-> "Snapshot", id |-> id]
-  /\ UNCHANGED <<acc, journal, pend, disk>>
+  /\ UNCHANGED <<acc, trie, journal, pend, disk, stale>>
 
 RevertToSnapshot(id) ==
   \E idx \in DOMAIN revs :
@@ -156,33 +163,40 @@ RevertToSnapshot(id) ==
     /\ revs' = SubSeq(revs, 1, idx - 1)
     /\ saved' = SubSeq(saved, 1, idx - 1)
     /\ res' = [op |-> "RevertToSnapshot", id |-> id, want |-> saved[idx]]
-    /\ UNCHANGED <<nextId, pend, disk>>
+    /\ UNCHANGED <<trie, nextId, pend, disk, stale>>
 
-(* Finalise(del) / IntermediateRoot(del): dirty objects are deleted (suicided, or empty when del) or
-   written to the account trie; journal and revisions are dropped *)
-Gone(r, dirty, del) == r.ex /\ (r.suic \/ (dirty /\ del /\ IsEmpty(r)))
+(* Finalise(Del) / IntermediateRoot(Del): objects whose address is dirty in the journal are deleted (suicided,
+   or empty when Del) or written to the account trie; journal and revisions are dropped.  As implemented,
+   a resetObjectChange (CreateAccount over an existing account) does NOT make the address dirty. *)
+Gone(r) == r.ex /\ (r.suic \/ (Del /\ IsEmpty(r)))
+Written(A, T, D) == [a \in Addrs |-> IF a \in D THEN (IF Gone(A[a]) \/ ~A[a].ex THEN NoAcct ELSE PersistRec(A[a])) ELSE T[a]]
+Swept(A, D)      == [a \in Addrs |-> IF a \in D /\ Gone(A[a]) THEN NoAcct ELSE A[a]]
+Stale(A, T, D)   == {a \in Addrs \ D : PersistRec(A[a]) # T[a]}
 
-Finalise(del) ==
-  /\ acc' = [a \in Addrs |-> IF Gone(acc[a], a \in Dirty, del) /\ a \in Dirty THEN NoAcct ELSE acc[a]]
-  /\ pend' = pend \cup {a \in Dirty : acc[a].ex}
+Finalise ==
+  /\ acc' = Swept(acc, Dirty)
+  /\ trie' = Written(acc, trie, Dirty)
+  /\ pend' = pend \cup Dirty
+  /\ stale' = Stale(acc, trie, Dirty)
   /\ journal' = <<>> /\ revs' = <<>> /\ saved' = <<>>
-  /\ res' = [op |-> "Finalise", del |-> del]
+  /\ res' = [op |-> "Finalise"]
   /\ UNCHANGED <<nextId, disk>>
 
-(* Commit(del): everything dirty or pending goes to the trie, the trie goes to the database *)
-Commit(del) ==
-  LET D == Dirty \cup pend
-      A2 == [a \in Addrs |-> IF Gone(acc[a], a \in D, del) THEN NoAcct ELSE acc[a]]
-  IN /\ acc' = A2
-     /\ disk' = Persist(A2)
+(* Commit(Del): everything dirty or pending goes to the trie, the trie goes to the database *)
+Commit ==
+  LET D == Dirty \cup pend IN
+     /\ acc' = Swept(acc, D)
+     /\ trie' = Written(acc, trie, D)
+     /\ disk' = Written(acc, trie, D)
+     /\ stale' = Stale(acc, trie, D)
      /\ pend' = {}
      /\ journal' = <<>> /\ revs' = <<>> /\ saved' = <<>>
-     /\ res' = [op |-> "Commit", del |-> del]
+     /\ res' = [op |-> "Commit"]
      /\ UNCHANGED nextId
 
 (* state.New(lastRoot, db): a new StateDB over the same database at the last committed root *)
 Reopen ==
-  /\ acc' = disk
+  /\ acc' = disk /\ trie' = disk /\ stale' = {}
   /\ journal' = <<>> /\ revs' = <<>> /\ saved' = <<>> /\ pend' = {} /\ nextId' = 0
   /\ res' = [op |-> "Reopen"]
   /\ UNCHANGED disk
@@ -191,9 +205,9 @@ Reopen ==
    r = "present"/"absent" (the driver compares the proven account body with the getters) *)
 ProveAccount(a, r) ==
   /\ journal = <<>>
-  /\ r = IF acc[a].ex THEN "present" ELSE "absent"
+  /\ r = IF trie[a].ex THEN "present" ELSE "absent"
   /\ res' = [op |-> "ProveAccount", a |-> a, r |-> r]
-  /\ UNCHANGED <<acc, journal, revs, nextId, pend, disk, saved>>
+  /\ UNCHANGED <<acc, trie, journal, revs, nextId, pend, disk, saved, stale>>
 
 Next ==
   \/ \E a \in Addrs, n \in 0..MaxNonce : SetNonce(a, n)
@@ -206,8 +220,8 @@ Next ==
   \/ \E a \in Addrs : CreateAccount(a)
   \/ \E id \in 0..MaxIds : Snapshot(id)
   \/ \E id \in 0..MaxIds : RevertToSnapshot(id)
-  \/ \E del \in BOOLEAN : Finalise(del)
-  \/ \E del \in BOOLEAN : Commit(del)
+  \/ Finalise
+  \/ Commit
   \/ Reopen
   \/ \E a \in Addrs, r \in {"present", "absent"} : ProveAccount(a, r)
 
@@ -217,7 +231,7 @@ Bound == Len(journal) <= MaxJournal /\ Len(revs) <= MaxSnap /\ nextId <= MaxIds
 
 -----------------------------------------------------------------------------------
 TypeOK ==
-  /\ acc \in [Addrs -> Rec] /\ disk \in [Addrs -> Rec] /\ pend \subseteq Addrs
+  /\ acc \in [Addrs -> Rec] /\ disk \in [Addrs -> Rec] /\ trie \in [Addrs -> Rec] /\ pend \subseteq Addrs
   /\ Len(saved) = Len(revs)
   /\ \A a \in Addrs : ~acc[a].ex => acc[a] = NoAcct
 
@@ -233,20 +247,27 @@ RevertRestoresExactly ==
 RevertStep ==
   [][ res'.op = "RevertToSnapshot" => acc' = res'.want ]_vars
 
-\* commit stores the finalised content; reopening yields exactly that; finalised content has no
-\* suicided and (when del) no touched-empty accounts
+\* ResetQuirk (as implemented, in-tree and reference alike): the only way a live object can differ from the
+\* trie after Finalise/Commit is a CreateAccount over an existing account that nothing dirtied afterwards
+ResetQuirk ==
+  [][ \A a \in stale' : a \in stale \/ \E i \in DOMAIN journal : journal[i].t = "reset" /\ journal[i].a = a ]_vars
+
+\* commit stores the finalised content; reopening yields exactly that; what was finalised has no suicided and
+\* (when Del) no touched-empty accounts.  "Exactly that content" = what the getters answer, outside `stale`.
 ReopenEqualsContent ==
-  [][ /\ (res'.op = "Commit" => (disk' = Persist(acc') /\ \A a \in Addrs : ~acc'[a].suic))
+  [][ /\ (res'.op \in {"Commit", "Finalise"} =>
+             \A a \in Addrs \ stale' : trie'[a] = PersistRec(acc'[a]) /\ ~acc'[a].suic)
+      /\ (res'.op = "Commit" => disk' = trie')
       /\ (res'.op = "Reopen" => (acc' = disk /\ disk' = disk)) ]_vars
 
 FinalisedClean ==
-  [][ (res'.op \in {"Finalise", "Commit"} /\ res'.del) =>
-         \A a \in Dirty : ~(acc'[a].ex /\ IsEmpty(acc'[a])) /\ ~acc'[a].suic ]_vars
+  [][ (res'.op \in {"Finalise", "Commit"} /\ Del) =>
+         \A a \in Dirty : ~(acc'[a].ex /\ IsEmpty(acc'[a])) ]_vars
 
 \* the committed content changes only at a Commit
 DiskStable == [][ res'.op # "Commit" => disk' = disk ]_vars
 
 \* an account proof reports presence exactly for existing accounts
 ProofYieldsValueOrAbsence ==
-  [][ res'.op = "ProveAccount" => ((res'.r = "present") <=> acc[res'.a].ex) ]_vars
+  [][ res'.op = "ProveAccount" => ((res'.r = "present") <=> trie[res'.a].ex) ]_vars
 ===================================================================================
